@@ -534,7 +534,9 @@ func (fc *funcContext) translateExpr(expr ast.Expr) *expression {
 				fc.zeroValue(t.Elem()),
 			)
 		case *types.Basic:
-			return fc.formatExpr("%e.charCodeAt(%f)", e.X, e.Index)
+			// Indexing a string past its end must panic; charCodeAt alone would
+			// silently yield NaN.
+			return fc.formatExpr(rangeCheck("%1e.charCodeAt(%2f)", false, true), e.X, e.Index)
 		case *types.Signature:
 			switch u := e.X.(type) {
 			case *ast.Ident:
